@@ -61,7 +61,12 @@ def _fstring_parts(node):
 
 def _fstring_text(node):
     import python_minifier.f_string as fs
-    return str(fs.OuterFString(node, pep701=True))
+    try:
+        return str(fs.OuterFString(node, pep701=True))
+    except RecursionError:
+        raise
+    except Exception as e:
+        raise OutOfModel('f-string: implementation raises %s' % e.__class__.__name__)
 
 
 def enc_expr(e):
